@@ -73,7 +73,7 @@ func c12fHistoryOpt(t *rapid.T, epilogue bool) []c12fStep {
 		ii := rapid.IntRange(0, 2).Draw(t, "image")
 		tag := rapid.SampledFrom([]string{"t1", "t2"}).Draw(t, "tag")
 		kind := rapid.SampledFrom([]string{"blobPost", "blobPost", "blobChunked", "blobChunked", "blobPostPut", "mount", "uploadCancel", "imageByTag", "imageByTag", "imageByDigest", "indexPut", "artifactPut",
-			"tagDelete", "manifestDelete", "blobDelete", "collect", "collectAll", "tagList", "manifestGet", "referrers", "restart", "restart", "restart"}).Draw(t, "kind")
+			"tagDelete", "manifestDelete", "blobDelete", "collect", "collectAll", "tagList", "manifestGet", "referrers", "blobHead", "blobHead", "restart", "restart", "restart"}).Draw(t, "kind")
 		s := c12fStep{name: fmt.Sprintf("%s %s layer=%d image=%d tag=%s", kind, rn, li, ii, tag), repo: rn}
 		switch kind {
 		case "blobPost":
@@ -276,6 +276,11 @@ func c12fHistoryOpt(t *rapid.T, epilogue bool) []c12fStep {
 			s.run = func(h *olareg.Server) string {
 				return fmt.Sprint(doReq(h, "GET", "/v2/"+rn+"/manifests/"+tag, nil, hdr("Accept", acceptAll)).code)
 			}
+		case "blobHead":
+			// a read that does not look at the index
+			s.run = func(h *olareg.Server) string {
+				return fmt.Sprint(doReq(h, "HEAD", "/v2/"+rn+"/blobs/"+dig("sha256", layers[li]), nil, nil).code)
+			}
 		case "restart":
 			// run stays nil: the runner closes the server and opens a new one on the directory (everything is loaded again)
 			s.name = "restart"
@@ -388,6 +393,7 @@ func c12fProperty(t *rapid.T, st *Stats) {
 	}
 	total, totalReads := vfs.MutCount(), vfs.ReadCount()
 	indexReads := c12fReadOrdinals(vfs.Log(), root0, "/index.json")
+	probeReads := c12fReadOrdinals(vfs.Log(), root0, "probes")
 	_ = h0.Close()
 	if total == 0 {
 		st.Case([]string{"history without mutating call"}, false)
@@ -401,9 +407,15 @@ func c12fProperty(t *rapid.T, st *Stats) {
 		limit = totalReads
 	}
 	k := rapid.IntRange(1, limit).Draw(t, "faultAt")
-	if readFault && len(indexReads) > 0 && rapid.Bool().Draw(t, "readOfIndexJSON") {
-		// half of the reading faults go to the file everything else hangs on (uniform over its reads)
-		k = rapid.SampledFrom(indexReads).Draw(t, "indexRead")
+	if readFault && len(indexReads) > 0 && len(probeReads) > 0 {
+		// a third of the reading faults goes to the opens of the file everything else hangs on, a third to the probes
+		// the store makes when it meets a repository (uniform within the class), a third anywhere
+		switch rapid.IntRange(0, 2).Draw(t, "readClass") {
+		case 1:
+			k = rapid.SampledFrom(indexReads).Draw(t, "indexRead")
+		case 2:
+			k = rapid.SampledFrom(probeReads).Draw(t, "probeRead")
+		}
 	}
 	k2 := 0
 	if !readFault && rapid.IntRange(0, 3).Draw(t, "secondFault") == 0 {
@@ -479,7 +491,13 @@ func c12fReadOrdinals(log []vfs.Op, root, suffix string) []int {
 			continue
 		}
 		n++
-		if strings.HasSuffix(op.Path, suffix) && op.Kind == "open" {
+		switch {
+		case suffix == "probes":
+			// what the store looks at when it meets a repository for the first time
+			if (op.Kind == "stat" && strings.HasSuffix(op.Path, "/index.json")) || (op.Kind == "readfile" && strings.HasSuffix(op.Path, "/oci-layout")) {
+				out = append(out, n)
+			}
+		case strings.HasSuffix(op.Path, suffix) && op.Kind == "open":
 			out = append(out, n)
 		}
 	}
